@@ -178,6 +178,10 @@ class NF:
                 out.append((ev + neg, ("fail",)))
             return
         t = self.tab(q).get(sym) if sym != "NEXT" else self._else_only(q)
+        if t is not None and not isinstance(sym, str) and sym != "NEXT" and id(q) in self.acc and t.error_handling:
+            # end-of-input in an accepting state whose End move is only the error route: the parse is complete, the error route is
+            # not taken (this is how the generated end() reads the machine; the error mark is therefore part of the behaviour)
+            t = None
         if t is None:
             out.append((ev, ("stuck-accepting" if id(q) in self.acc else "stuck",)))
             return
